@@ -3,6 +3,14 @@
    must satisfy). */
 #ifndef WV_C_HASH_H
 #define WV_C_HASH_H
+/* The block pointer of a compression / final call is a separate object (string, heap buffer) in every caller except
+   getFileHash, which passes the hasher's own hashblock member.  The contracts are proved in both shapes: the *_alias
+   obligations are compiled with WV_INPUT_ALIAS. */
+#ifdef WV_INPUT_ALIAS
+#define WV_IN(hb, input, n) ((input) == (hb))
+#else
+#define WV_IN(hb, input, n) __CPROVER_is_fresh(input, n)
+#endif
 /* logging part of a compression call (what callers see) */
 #define WV_COMPRESS_LOG(input) \
   __CPROVER_ensures(wv_hl_n == __CPROVER_old(wv_hl_n) + 1) \
@@ -14,7 +22,7 @@
 
 /* ---------------- SHA-256 */
 void sha256hash__getHash_1(sha256hash *this, const u8_t *input)
-__CPROVER_requires(__CPROVER_is_fresh(this, sizeof(*this)) && __CPROVER_is_fresh(input, 64) && wv_g < 64 && wv_hl_n < (1ull << 52))
+__CPROVER_requires(__CPROVER_is_fresh(this, sizeof(*this)) && WV_IN(this->_base.hashblock, input, 64) && wv_g < 64 && wv_hl_n < (1ull << 62))
 __CPROVER_assigns(WV_ARR(this->h), WV_ARR(this->w), WV_ARR(this->s), this->_base.totalsize, WV_HGHOSTS)
 __CPROVER_ensures(this->_base.totalsize == __CPROVER_old(this->_base.totalsize) + 512)
 WV_COMPRESS_LOG(input)
@@ -28,7 +36,7 @@ __CPROVER_ensures(WV_FEED(0) && WV_FEED(1) && WV_FEED(2) && WV_FEED(3) && WV_FEE
 
 /* ---------------- SHA-1 */
 void sha1hash__getHash_1(sha1hash *this, const u8_t *input)
-__CPROVER_requires(__CPROVER_is_fresh(this, sizeof(*this)) && __CPROVER_is_fresh(input, 64) && wv_g < 64 && wv_hl_n < (1ull << 52))
+__CPROVER_requires(__CPROVER_is_fresh(this, sizeof(*this)) && WV_IN(this->_base.hashblock, input, 64) && wv_g < 64 && wv_hl_n < (1ull << 62))
 __CPROVER_assigns(WV_ARR(this->h), WV_ARR(this->w), WV_ARR(this->s), this->_base.totalsize, WV_HGHOSTS)
 __CPROVER_ensures(this->_base.totalsize == __CPROVER_old(this->_base.totalsize) + 512)
 WV_COMPRESS_LOG(input)
@@ -40,7 +48,7 @@ __CPROVER_ensures(WV_FEED(0) && WV_FEED(1) && WV_FEED(2) && WV_FEED(3) && WV_FEE
 
 /* ---------------- MD5 */
 void md5hash__getHash_1(md5hash *this, const u8_t *input)
-__CPROVER_requires(__CPROVER_is_fresh(this, sizeof(*this)) && __CPROVER_is_fresh(input, 64) && wv_g < 64 && wv_hl_n < (1ull << 52))
+__CPROVER_requires(__CPROVER_is_fresh(this, sizeof(*this)) && WV_IN(this->_base.hashblock, input, 64) && wv_g < 64 && wv_hl_n < (1ull << 62))
 __CPROVER_assigns(WV_ARR(this->h), WV_ARR(this->s), this->_base.totalsize, WV_HGHOSTS)
 __CPROVER_ensures(this->_base.totalsize == __CPROVER_old(this->_base.totalsize) + 512)
 WV_COMPRESS_LOG(input)
@@ -57,7 +65,7 @@ __CPROVER_ensures(WV_FEED(0) && WV_FEED(1) && WV_FEED(2) && WV_FEED(3));
 #define WV_FINAL_ASSIGNS_md5hash WV_ARR(this->h), WV_ARR(this->s), this->_base.totalsize
 #define WV_FINAL_CONTRACT(cls, BE) \
 void cls##__getHash_2(cls *this, const u8_t *input, u32_t final_loadsize) \
-__CPROVER_requires(__CPROVER_is_fresh(this, sizeof(*this)) && final_loadsize < 64 && __CPROVER_is_fresh(input, final_loadsize) && wv_g < 64 && wv_hl_n < (1ull << 50)) \
+__CPROVER_requires(__CPROVER_is_fresh(this, sizeof(*this)) && final_loadsize < 64 && WV_IN(this->_base.hashblock, input, final_loadsize) && wv_g < 64 && wv_hl_n < (1ull << 61)) \
 __CPROVER_assigns(WV_FINAL_ASSIGNS_##cls, WV_HGHOSTS) \
 __CPROVER_ensures(wv_hl_n == __CPROVER_old(wv_hl_n) + (final_loadsize < 56 ? 1 : 2)) \
 __CPROVER_ensures(wv_hl_fptr == input && wv_hl_fr == final_loadsize && wv_hl_ftotal == __CPROVER_old(this->_base.totalsize)) \
@@ -120,14 +128,14 @@ __CPROVER_assigns(__CPROVER_object_whole(this))
 __CPROVER_ensures(this->totalsize == 0 && WV_TAG_OF(this) == __CPROVER_old(WV_TAG_OF(this)));
 
 void Hashmaster__getHash_1(Hashmaster *this, const u8_t *input)
-__CPROVER_requires(__CPROVER_is_fresh(this, WV_HM_SIZE) && WV_IS_HASHER(this) && __CPROVER_is_fresh(input, 64) && wv_g < 64 && wv_hl_n < (1ull << 51))
+__CPROVER_requires(__CPROVER_is_fresh(this, WV_HM_SIZE) && WV_IS_HASHER(this) && WV_IN(this->hashblock, input, 64) && wv_g < 64 && wv_hl_n < (1ull << 61))
 __CPROVER_assigns(__CPROVER_object_whole(this), WV_HGHOSTS)
 __CPROVER_ensures(this->totalsize == __CPROVER_old(this->totalsize) + 512 && WV_TAG_OF(this) == __CPROVER_old(WV_TAG_OF(this)))
 WV_COMPRESS_LOG(input);
 
 #define WV_BITLEN_A ((u64_t)__CPROVER_old(this->totalsize) + 8ull * final_loadsize)
 void Hashmaster__getHash_2(Hashmaster *this, const u8_t *input, u32_t final_loadsize)
-__CPROVER_requires(__CPROVER_is_fresh(this, WV_HM_SIZE) && WV_IS_HASHER(this) && final_loadsize < 64 && __CPROVER_is_fresh(input, final_loadsize) && wv_g < 64 && wv_hl_n < (1ull << 49))
+__CPROVER_requires(__CPROVER_is_fresh(this, WV_HM_SIZE) && WV_IS_HASHER(this) && final_loadsize < 64 && WV_IN(this->hashblock, input, final_loadsize) && wv_g < 64 && wv_hl_n < (1ull << 60))
 __CPROVER_assigns(__CPROVER_object_whole(this), WV_HGHOSTS)
 __CPROVER_ensures(WV_TAG_OF(this) == __CPROVER_old(WV_TAG_OF(this)))
 __CPROVER_ensures(wv_hl_n == __CPROVER_old(wv_hl_n) + (final_loadsize < 56 ? 1 : 2))
@@ -158,7 +166,7 @@ __CPROVER_ensures(__CPROVER_return_value == 64);
 #define WV_REL (wv_hl_watch - __CPROVER_old(wv_hl_n))
 void Hashmaster__getStringHash(Hashmaster *this, const u8_t *string, u32_t length, u8_t *hashres)
 __CPROVER_requires(__CPROVER_is_fresh(this, WV_HM_SIZE) && WV_IS_HASHER(this) && __CPROVER_is_fresh(string, length) &&
-                   __CPROVER_is_fresh(hashres, WV_HLEN(this)) && wv_g < 64 && wv_gr < WV_HLEN(this) && wv_hl_n < (1ull << 40))
+                   __CPROVER_is_fresh(hashres, WV_HLEN(this)) && wv_g < 64 && wv_gr < WV_HLEN(this) && wv_hl_n < (1ull << 58))
 __CPROVER_assigns(__CPROVER_object_whole(this), WV_HGHOSTS)
 __CPROVER_assigns(WV_ASSIGNS_DIGEST(this, hashres))
 __CPROVER_ensures(WV_TAG_OF(this) == __CPROVER_old(WV_TAG_OF(this)))
@@ -187,7 +195,7 @@ __CPROVER_ensures(WV_FB_LEFT(this) == (block != NULL ? 64ull : 0ull) + (__CPROVE
 
 u32_t filebuffer64__read_buffer64(filebuffer64 *this, u8_t *block)
 __CPROVER_requires(WV_FB_FRESH(this) && WV_FB_OK(this) && !WV_FB_DONE(this) && __CPROVER_is_fresh(block, 64))
-__CPROVER_assigns(WV_ARR(this->b), this->has_extra, this->total, this->now, this->tail, this->fp->pos, this->fp->eof, __CPROVER_object_upto(block, 64))
+__CPROVER_assigns(WV_FB_STATE(this), __CPROVER_object_upto(block, 64))
 __CPROVER_ensures(__CPROVER_return_value == (WV_FB_LEFT_OLD(this) >= 64 ? 64 : WV_FB_LEFT_OLD(this)))
 __CPROVER_ensures(WV_FB_LEFT(this) == WV_FB_LEFT_OLD(this) - __CPROVER_return_value)
 __CPROVER_ensures(WV_FB_OK(this) && WV_FB_DONE(this) == (__CPROVER_return_value < 64))
@@ -196,7 +204,7 @@ __CPROVER_ensures(this->fp == __CPROVER_old(this->fp) && this->fp->len == __CPRO
 /* R5 dispatcher (filebuffer64 is the only subclass) */
 u32_t buffer64__read_buffer64(buffer64 *this, u8_t *block)
 __CPROVER_requires(WV_FB_FRESH(WV_FB(this)) && WV_TAG_OF(this) == WV_TAG_filebuffer64 && WV_FB_OK(WV_FB(this)) && !WV_FB_DONE(WV_FB(this)) && __CPROVER_is_fresh(block, 64))
-__CPROVER_assigns(__CPROVER_object_whole(this), WV_FB(this)->fp->pos, WV_FB(this)->fp->eof, __CPROVER_object_upto(block, 64))
+__CPROVER_assigns(WV_FB_STATE(WV_FB(this)), __CPROVER_object_upto(block, 64))
 __CPROVER_ensures(__CPROVER_return_value == (WV_FB_LEFT_OLD(WV_FB(this)) >= 64 ? 64 : WV_FB_LEFT_OLD(WV_FB(this))))
 __CPROVER_ensures(WV_FB_LEFT(WV_FB(this)) == WV_FB_LEFT_OLD(WV_FB(this)) - __CPROVER_return_value)
 __CPROVER_ensures(WV_FB_OK(WV_FB(this)) && WV_FB_DONE(WV_FB(this)) == (__CPROVER_return_value < 64) && WV_TAG_OF(this) == WV_TAG_filebuffer64)
@@ -206,8 +214,8 @@ __CPROVER_ensures(WV_FB(this)->fp == __CPROVER_old(WV_FB(this)->fp) && WV_FB(thi
    with the bit count of what was hashed before; the whole stream is consumed */
 void Hashmaster__getFileHash(Hashmaster *this, buffer64 *buffer, u8_t *hashres)
 __CPROVER_requires(__CPROVER_is_fresh(this, WV_HM_SIZE) && WV_IS_HASHER(this) && WV_FB_FRESH(WV_FB(buffer)) && WV_TAG_OF(buffer) == WV_TAG_filebuffer64 &&
-                   WV_FB_OK(WV_FB(buffer)) && !WV_FB_DONE(WV_FB(buffer)) && __CPROVER_is_fresh(hashres, WV_HLEN(this)) && wv_g < 64 && wv_gr < WV_HLEN(this) && wv_hl_n < (1ull << 40))
-__CPROVER_assigns(__CPROVER_object_whole(this), __CPROVER_object_whole(buffer), WV_FB(buffer)->fp->pos, WV_FB(buffer)->fp->eof, WV_HGHOSTS, wv_fb_left0)
+                   WV_FB_OK(WV_FB(buffer)) && !WV_FB_DONE(WV_FB(buffer)) && __CPROVER_is_fresh(hashres, WV_HLEN(this)) && wv_g < 64 && wv_gr < WV_HLEN(this) && wv_hl_n < (1ull << 58))
+__CPROVER_assigns(__CPROVER_object_whole(this), WV_FB_STATE(WV_FB(buffer)), WV_HGHOSTS, wv_fb_left0)
 __CPROVER_assigns(WV_ASSIGNS_DIGEST(this, hashres))
 __CPROVER_ensures(WV_TAG_OF(this) == __CPROVER_old(WV_TAG_OF(this)))
 __CPROVER_ensures(wv_hl_n == __CPROVER_old(wv_hl_n) + (WV_FB_LEFT_OLD(WV_FB(buffer)) >> 6) + ((WV_FB_LEFT_OLD(WV_FB(buffer)) & 63) < 56 ? 1 : 2))
